@@ -4,6 +4,7 @@
    `recover` (secp256k1 recovery + address derivation over the hash of the vote
    bytes) and the address type are universally quantified. *)
 From Goloop Require Import lib.Bytes Model_Quorum Proofs_Quorum Model_CommitVoteList Proofs_CommitVoteList.
+From Goloop Require Import Link_C05.
 Open Scope nat_scope.
 
 (* enoughVote(voted, voters) with voters > 0 is exactly 3*voted > 2*voters *)
@@ -125,3 +126,17 @@ Theorem C05_verify_stateless :
     Some (verify_block addr_eqb recover h round bid ps vals items).
 Proof. exact @verify_session_stateless. Qed.
 Print Assumptions C05_verify_stateless.
+
+(* ---- kernel link (Link_C05.v).  enoughVote is re-generated from
+   consensus/commitvotelist.go on every run (tools/go2coq); the threshold `enough` of
+   the model, used in all theorems above, IS the test of the current Go code for every
+   number of voters a Go slice can have (voters <= 2^62-1), voters = 0 included ---- *)
+Theorem C05_kernel_enoughVote : forall voted voters : nat,
+  (Z.of_nat voters <= 4611686018427387903)%Z ->
+  enough voted voters = enoughVote (Z.of_nat voted) (Z.of_nat voters).
+Proof. exact enough_is_enoughVote. Qed.
+Print Assumptions C05_kernel_enoughVote.
+
+Theorem C05_kernel_params : Link_C05.kernel_params_pinned.
+Proof. exact Link_C05.kernel_params_ok. Qed.
+Print Assumptions C05_kernel_params.
